@@ -98,11 +98,12 @@ fn policy(fam: &str, rng: &mut StdRng, steps: usize) -> (Policy, f64) {
             p.p_time = 0.01;
         }
         "heal" => {
-            let inner = ["random-partition", "lossy-reorder", "equivocating-leader", "timeout-liar", "crash-random", "hidden-commit", "poisoned-laggard", "poisoned-laggard", "twins"][rng.gen_range(0..9)];
+            let inner = ["random-partition", "lossy-reorder", "equivocating-leader", "timeout-liar", "crash-random", "hidden-commit", "poisoned-laggard", "poisoned-laggard", "twins", "equivocating-leader", "timeout-liar"][rng.gen_range(0..11)];
             let (q, b) = policy(inner, rng, steps);
             p = q;
             byz = b;
             p.heal = true;
+            p.partial_timeout_round = rng.gen_bool(0.35);
             p.byz_silent_in_suffix = rng.gen_bool(0.5);
         }
         "absurd" => {
